@@ -310,6 +310,8 @@ impl EventGen for GroupElement {
         // do any required transformations on the <g> itself here.
         let mut new_el = self.0.clone();
         new_el.eval_attributes(context)?;
+        // (the evaluated value is needed again below, for the bounding box)
+        let transform = new_el.get_attr("transform");
 
         // push variables onto the stack
         context.push_element(&self.0);
@@ -340,6 +342,10 @@ impl EventGen for GroupElement {
         // Messy! should probably have a id->bbox map in context
         let mut new_el = self.0.clone();
         new_el.content_bbox = content_bb;
+        if let Some(transform) = &transform {
+            // as evaluated above: a variable or expression is not a transform list
+            new_el.set_attr("transform", transform);
+        }
         context.update_element(&new_el);
         context.set_prev_element(&new_el);
 
